@@ -573,49 +573,28 @@ func (s *Subtitles) Fragment(f time.Duration) {
 		return
 	}
 
-	// Here we want to simulate fragments of duration f until there are no subtitles left in that period of time
-	var fragmentStartAt, fragmentEndAt = time.Duration(0), f
-	for fragmentStartAt < s.Items[len(s.Items)-1].EndAt {
-		// We loop through subtitles and process the ones that either contain the fragment start at,
-		// or contain the fragment end at
-		//
-		// It's useless processing subtitles contained between fragment start at and end at
-		//             |____________________|             <- subtitle
-		//           |                        |
-		//   fragment start at        fragment end at
-		for i, sub := range s.Items {
-			// Init
-			var newSub = &Item{}
-			*newSub = *sub
-
-			// A switch is more readable here
-			switch {
-			// Subtitle contains fragment start at
-			// |____________________|                         <- subtitle
-			//           |                        |
-			//   fragment start at        fragment end at
-			case sub.StartAt < fragmentStartAt && sub.EndAt > fragmentStartAt:
-				sub.StartAt = fragmentStartAt
-				newSub.EndAt = fragmentStartAt
-			// Subtitle contains fragment end at
-			//                         |____________________| <- subtitle
-			//           |                        |
-			//   fragment start at        fragment end at
-			case sub.StartAt < fragmentEndAt && sub.EndAt > fragmentEndAt:
-				sub.StartAt = fragmentEndAt
-				newSub.EndAt = fragmentEndAt
-			default:
-				continue
-			}
-
-			// Insert new sub
-			s.Items = append(s.Items[:i], append([]*Item{newSub}, s.Items[i:]...)...)
+	// Cut every subtitle at each multiple of f it strictly contains. Every subtitle is cut on its
+	// own so that overlapping subtitles, or a last subtitle that is not the one ending last, are
+	// fragmented as well
+	var items = make([]*Item, 0, len(s.Items))
+	for _, sub := range s.Items {
+		// Get the first multiple of f after the start of the subtitle
+		var boundary = sub.StartAt - sub.StartAt%f
+		if boundary <= sub.StartAt {
+			boundary += f
 		}
 
-		// Update fragments boundaries
-		fragmentStartAt += f
-		fragmentEndAt += f
+		// The new sub ends at the boundary, the original sub now starts at the boundary
+		for ; boundary < sub.EndAt; boundary += f {
+			var newSub = &Item{}
+			*newSub = *sub
+			newSub.EndAt = boundary
+			sub.StartAt = boundary
+			items = append(items, newSub)
+		}
+		items = append(items, sub)
 	}
+	s.Items = items
 
 	// Order
 	s.Order()
